@@ -27,7 +27,7 @@ ASSUMPTIONS = [
 TIMEOUT = {"quick": 900, "thorough": 4 * 3600}
 NSH = 16
 
-NAMES_Q = [None, "x", "My Project 1", "(version 07)", "a (version 07)", "12-34-56", "Zutritt Tür"]
+NAMES_Q = [None, "x", "My Project 1", "(version 07)", "a (version 07)", "12-34-56", "Zutritt Tür", "Reader{0}", "a{}b", "x}", "{version}", "{{site}}", "100%s", "%(name)s %d", "back\\slash \\1"]
 NAMES_T = NAMES_Q + ["name with  two spaces", "v (version 99) (version 00)", "12345-1234-1234-1", "1234-1234-1234-12 x", "ü", "a:b#c", "(version 7)", "x (version 123)", "12345-1234-1234-123"]
 AMBIGUOUS_NAMES = ["12345-1234-1234-12", "12345-1234-1234-12 foo", "00000-0000-0000-00 (version 07)", "12345-1234-1234-12x"]
 
@@ -44,7 +44,7 @@ def plan(tier, seed):
 
 def mandatory_bins(tier):
     return ["sweep_customer", "sweep_project", "sweep_device", "sweep_version", "project_9999", "device_9999", "device_0", "name_absent", "name_only", "name_with_version_suffix",
-            "prj_settings_subsets", "dev_settings_subsets", "fallback_name_only", "missing_error", "byte_width_1", "byte_width_2", "byte_width_3", "byte_width_4", "byte_width_8", "unparsable", "ambiguous_name", "parse_again_after_caller_edited_the_first_result"]
+            "prj_settings_subsets", "dev_settings_subsets", "fallback_name_only", "missing_error", "byte_width_1", "byte_width_2", "byte_width_3", "byte_width_4", "byte_width_8", "unparsable", "ambiguous_name", "parse_again_after_caller_edited_the_first_result", "naming_values_given_as_bytearray"]
 
 
 def fields(obj):
@@ -123,8 +123,13 @@ def check_config(ns, ctx, conf, which):
         exp = f_model(conf)
     except model.Missing:
         exp = None
+    arg = dict(conf)
+    if len(conf) % 3 == 1 and conf:
+        # the naming values handed over as bytearray (what a caller gets from a buffer) instead of bytes
+        arg = {k: bytearray(v) for k, v in conf.items()}
+        ctx.bin("naming_values_given_as_bytearray")
     try:
-        got = f_impl(dict(conf))
+        got = f_impl(arg)
         ctx.mon("create_from_%s_settings" % which)
     except missing_cls as e:
         ctx.mon("create_from_%s_settings" % which)
